@@ -39,6 +39,30 @@ theorem reportErr_locMacros (cfg : Cfg S) (st : State S) (o x) : (reportErr cfg 
 theorem reportErr_remarks (cfg : Cfg S) (st : State S) (o x) : (reportErr cfg st o x).1.remarks = st.remarks := by
   unfold reportErr; split <;> simp
 
+@[simp] theorem flag_supprs (cfg : Cfg S) (st : State S) (x) (st' : State S) : (flag cfg st x st').supprs = st'.supprs := by
+  unfold flag; split <;> rfl
+@[simp] theorem flag_errorList (cfg : Cfg S) (st : State S) (x) (st' : State S) : (flag cfg st x st').errorList = st'.errorList := by
+  unfold flag; split <;> rfl
+@[simp] theorem flag_suppressedList (cfg : Cfg S) (st : State S) (x) (st' : State S) :
+    (flag cfg st x st').suppressedList = st'.suppressedList := by
+  unfold flag; split <;> rfl
+@[simp] theorem flag_locMacros (cfg : Cfg S) (st : State S) (x) (st' : State S) : (flag cfg st x st').locMacros = st'.locMacros := by
+  unfold flag; split <;> rfl
+@[simp] theorem flag_remarks (cfg : Cfg S) (st : State S) (x) (st' : State S) : (flag cfg st x st').remarks = st'.remarks := by
+  unfold flag; split <;> rfl
+@[simp] theorem flag_exitCode (cfg : Cfg S) (st : State S) (x) (st' : State S) : (flag cfg st x st').exitCode = st'.exitCode := by
+  unfold flag; split <;> rfl
+theorem flag_internal (cfg : Cfg S) (st : State S) (x : Finding) (st' : State S) (h : x.internal = true) :
+    flag cfg st x st' = st' := by
+  unfold flag; rw [if_pos h]
+@[simp] theorem markStep_supprs (cfg : Cfg S) (toks) (st : State S) : (markStep cfg toks st).supprs = st.supprs := rfl
+@[simp] theorem markStep_errorList (cfg : Cfg S) (toks) (st : State S) : (markStep cfg toks st).errorList = st.errorList := rfl
+@[simp] theorem markStep_suppressedList (cfg : Cfg S) (toks) (st : State S) :
+    (markStep cfg toks st).suppressedList = st.suppressedList := rfl
+@[simp] theorem markStep_locMacros (cfg : Cfg S) (toks) (st : State S) : (markStep cfg toks st).locMacros = st.locMacros := rfl
+@[simp] theorem markStep_remarks (cfg : Cfg S) (toks) (st : State S) : (markStep cfg toks st).remarks = st.remarks := rfl
+@[simp] theorem markStep_exitCode (cfg : Cfg S) (toks) (st : State S) : (markStep cfg toks st).exitCode = st.exitCode := rfl
+
 /-- suppressions are never removed -/
 theorem stepEv_supprs_mono (cfg : Cfg S) (st : State S) (o : Out) (e : Ev S) :
     ∀ s, s ∈ st.supprs → s ∈ (stepEv cfg st o e).1.supprs := by
@@ -48,6 +72,8 @@ theorem stepEv_supprs_mono (cfg : Cfg S) (st : State S) (o : Out) (e : Ev S) :
   | remarks r => exact hs
   | macros m => exact hs
   | report x => simpa [stepEv, reportErr_supprs] using hs
+  | probe x => simpa [stepEv] using hs
+  | mark toks => simpa [stepEv] using hs
 
 theorem runEvs_supprs_mono (cfg : Cfg S) (evs : List (Ev S)) : ∀ (st : State S) (o : Out),
     ∀ s, s ∈ st.supprs → s ∈ (runEvs cfg st o evs).1.supprs := by
@@ -71,6 +97,8 @@ theorem runEvs_supprs_origin (cfg : Cfg S) (evs : List (Ev S)) : ∀ (st : State
       | remarks r => exact Or.inl h
       | macros m => exact Or.inl h
       | report x => exact Or.inl (by simpa [stepEv, reportErr_supprs] using h)
+      | probe x => exact Or.inl (by simpa [stepEv] using h)
+      | mark toks => exact Or.inl (by simpa [stepEv] using h)
     · cases e <;> first | exact Or.inr (by simp [supprsOf, h]) | exact Or.inr (by simpa [supprsOf] using h)
 
 @[simp] theorem clearLists_supprs (st : State S) : (clearLists st).supprs = st.supprs := rfl
@@ -210,6 +238,26 @@ theorem step_sim (cfg : Cfg S) (F : List S) (e : Ev S) (t : List (Ev S)) (c a : 
     · intro x _ _; rfl
     · intro x hx; exact h.rem x (by simpa [preRemarkReports] using hx)
     · intro he x hx; exact h.dup he x (by simpa [reportsOf] using hx)
+  | probe x =>
+    refine ⟨rfl, ⟨?_, ?_, ?_, ?_, ?_, ?_, ?_, ?_⟩⟩
+    · simpa [stepEv] using h.supA
+    · simpa [stepEv] using h.supB
+    · simpa [foreignOK, stepEv] using h.fOK
+    · intro u hu; exact h.sOK u (by simpa [supprsOf] using hu)
+    · intro y hy; simpa [stepEv] using h.mac y (by simpa [preMacroReports] using hy)
+    · intro y hy; simpa [stepEv] using h.rem y (by simpa [preRemarkReports] using hy)
+    · intro he y hy; simpa [stepEv] using h.dup he y (by simpa [reportsOf] using hy)
+    · simpa [stepEv] using h.ex
+  | mark toks =>
+    refine ⟨rfl, ⟨?_, ?_, ?_, ?_, ?_, ?_, ?_, ?_⟩⟩
+    · simpa [stepEv] using h.supA
+    · simpa [stepEv] using h.supB
+    · simpa [foreignOK, stepEv] using h.fOK
+    · intro u hu; exact h.sOK u (by simpa [supprsOf] using hu)
+    · intro y hy; simpa [stepEv] using h.mac y (by simpa [preMacroReports] using hy)
+    · intro y hy; simpa [stepEv] using h.rem y (by simpa [preRemarkReports] using hy)
+    · intro he y hy; simpa [stepEv] using h.dup he y (by simpa [reportsOf] using hy)
+    · simpa [stepEv] using h.ex
   | report x =>
     have hf := h.fOK
     simp only [foreignOK, Bool.and_eq_true, Bool.or_eq_true] at hf
@@ -231,9 +279,13 @@ theorem step_sim (cfg : Cfg S) (F : List S) (e : Ev S) (t : List (Ev S)) (c a : 
       · intro y hy; rw [e5, e6]; exact h.rem y (by simp [preRemarkReports, hy])
     by_cases hi : x.internal = true
     · have e1 : stepEv cfg c o (.report x) = (c, { o with forwarded := o.forwarded ++ [x] }) := by
-        simp [stepEv, reportErr, hi]
+        have r : reportErr cfg c o x = (c, { o with forwarded := o.forwarded ++ [x] }) := by simp [reportErr, hi]
+        simp only [stepEv, r]
+        rw [flag_internal cfg c x c hi]
       have e2 : stepEv cfg a o (.report x) = (a, { o with forwarded := o.forwarded ++ [x] }) := by
-        simp [stepEv, reportErr, hi]
+        have r : reportErr cfg a o x = (a, { o with forwarded := o.forwarded ++ [x] }) := by simp [reportErr, hi]
+        simp only [stepEv, r]
+        rw [flag_internal cfg a x a hi]
       rw [e1, e2]
       exact ⟨rfl, tailInv c a rfl rfl rfl rfl rfl rfl
         (fun he y hy => h.dup he y (by simp [reportsOf, hy])) h.ex⟩
@@ -280,8 +332,8 @@ theorem step_sim (cfg : Cfg S) (F : List S) (e : Ev S) (t : List (Ev S)) (c a : 
       rw [hdh, hsup, hm, hr]
       refine ⟨rfl, tailInv _ _ (by simp) (by simp) (by simp) (by simp) (by simp) (by simp) ?_ ?_⟩
       · intro he y hy hyi
-        exact updState_lists_congr cfg x _ _ _ c a y.text (h.dup he y (by simp [reportsOf, hy]) hyi)
-      · exact updState_exit_congr cfg x _ _ _ c a h.ex
+        simpa using updState_lists_congr cfg x _ _ _ c a y.text (h.dup he y (by simp [reportsOf, hy]) hyi)
+      · simpa using updState_exit_congr cfg x _ _ _ c a h.ex
 
 theorem run_sim (cfg : Cfg S) (F : List S) (evs : List (Ev S)) : ∀ (c a : State S) (o : Out),
     Inv cfg F evs c a →
@@ -451,5 +503,99 @@ theorem runFrom_length {α : Type} (cfg : Cfg S) (analyze : α → Trace S) (l :
   induction l with
   | nil => intro _; rfl
   | cons f rest ih => intro st; simp [runFrom, ih]
+
+/-! ### the `checked` flags: who can set the flag of an entry -/
+
+@[simp] theorem updState_checked (cfg : Cfg S) (x m b d) (st : State S) : (updState cfg x m b d st).checked = st.checked := by
+  unfold updState; dsimp only; repeat' split
+  all_goals rfl
+
+theorem reportErr_checked (cfg : Cfg S) (st : State S) (o x) : (reportErr cfg st o x).1.checked = st.checked := by
+  unfold reportErr; split <;> simp
+
+@[simp] theorem clearLists_checked (st : State S) : (clearLists st).checked = st.checked := rfl
+@[simp] theorem enter_checked (cfg : Cfg S) (st : State S) : (enter cfg st).checked = st.checked := by
+  unfold enter; split <;> rfl
+
+/-- an event of a file can set the `checked` flag of the entry `s`: a marked token list names the file of `s` on a line
+    that passes the line test, or a tested message touches `s` (for some macro names) -/
+def couldCheck (cfg : Cfg S) (s : S) (evs : List (Ev S)) : Prop :=
+  (∃ toks, toks ∈ marksOf evs ∧ ∃ t, t ∈ toks ∧ cfg.fileOf s = t.1 ∧ cfg.markLine s t.2 = true) ∨
+  (∃ x, x ∈ testedOf evs ∧ ∃ m, cfg.touches s x m = true)
+
+theorem markStep_checked_mem (cfg : Cfg S) (toks : List (Str × Int)) (st : State S) (s : S) :
+    s ∈ (markStep cfg toks st).checked ↔
+      s ∈ st.checked ∨ (s ∈ st.supprs ∧ ∃ t, t ∈ toks ∧ cfg.fileOf s = t.1 ∧ cfg.markLine s t.2 = true) := by
+  simp only [markStep, List.mem_append, List.mem_filter, List.any_eq_true, Bool.and_eq_true, beq_iff_eq]
+
+theorem flag_checked_mem (cfg : Cfg S) (st : State S) (x : Finding) (st' : State S) (s : S)
+    (h : s ∈ (flag cfg st x st').checked) :
+    s ∈ st'.checked ∨ (x.internal = false ∧ s ∈ st.supprs ∧ cfg.touches s x (lookupMacros st.locMacros x) = true) := by
+  unfold flag at h
+  by_cases hi : x.internal = true
+  · rw [if_pos hi] at h; exact Or.inl h
+  · rw [if_neg hi] at h
+    simp only [List.mem_append, List.mem_filter] at h
+    rcases h with h | h
+    · exact Or.inl h
+    · exact Or.inr ⟨by simpa using hi, h.1, h.2⟩
+
+theorem stepEv_checked_origin (cfg : Cfg S) (st : State S) (o : Out) (e : Ev S) (s : S)
+    (h : s ∈ (stepEv cfg st o e).1.checked) : s ∈ st.checked ∨ couldCheck cfg s [e] := by
+  cases e with
+  | suppr u => exact Or.inl h
+  | remarks r => exact Or.inl h
+  | macros m => exact Or.inl h
+  | report x =>
+    rcases flag_checked_mem cfg st x _ s h with h1 | ⟨_, _, h3⟩
+    · exact Or.inl (by simpa [reportErr_checked] using h1)
+    · exact Or.inr (Or.inr ⟨x, by simp [testedOf], _, h3⟩)
+  | probe x =>
+    rcases flag_checked_mem cfg st x _ s h with h1 | ⟨_, _, h3⟩
+    · exact Or.inl h1
+    · exact Or.inr (Or.inr ⟨x, by simp [testedOf], _, h3⟩)
+  | mark toks =>
+    rcases (markStep_checked_mem cfg toks st s).1 h with h1 | ⟨_, t, ht, hf, hl⟩
+    · exact Or.inl h1
+    · exact Or.inr (Or.inl ⟨toks, by simp [marksOf], t, ht, hf, hl⟩)
+
+theorem couldCheck_cons (cfg : Cfg S) (s : S) (e : Ev S) (t : List (Ev S)) :
+    couldCheck cfg s (e :: t) ↔ couldCheck cfg s [e] ∨ couldCheck cfg s t := by
+  unfold couldCheck
+  cases e <;> simp [marksOf, testedOf] <;> grind
+
+theorem runEvs_checked_origin (cfg : Cfg S) (evs : List (Ev S)) : ∀ (st : State S) (o : Out) (s : S),
+    s ∈ (runEvs cfg st o evs).1.checked → s ∈ st.checked ∨ couldCheck cfg s evs := by
+  induction evs with
+  | nil => intro st o s h; exact Or.inl h
+  | cons e t ih =>
+    intro st o s h
+    rcases ih _ _ s h with h1 | h1
+    · rcases stepEv_checked_origin cfg st o e s h1 with h2 | h2
+      · exact Or.inl h2
+      · exact Or.inr ((couldCheck_cons cfg s e t).2 (Or.inl h2))
+    · exact Or.inr ((couldCheck_cons cfg s e t).2 (Or.inr h1))
+
+theorem checkFile_checked_origin (cfg : Cfg S) (st : State S) (tr : Trace S) (s : S)
+    (h : s ∈ (checkFile cfg st tr).1.checked) : s ∈ st.checked ∨ couldCheck cfg s tr.evs := by
+  have : s ∈ (runEvs cfg (enter cfg st) ⟨[], []⟩ tr.evs).1.checked := by
+    unfold checkFile at h
+    dsimp only at h
+    split at h <;> simpa using h
+  simpa using runEvs_checked_origin cfg tr.evs _ _ s this
+
+/-- the flag of an entry is set at the start, or some file of the run could set it -/
+theorem stateAfter_checked_origin {α : Type} (cfg : Cfg S) (analyze : α → Trace S) (pre : List α) :
+    ∀ (init : State S) (s : S), s ∈ (stateAfter cfg analyze init pre).checked →
+      s ∈ init.checked ∨ ∃ g, g ∈ pre ∧ couldCheck cfg s (analyze g).evs := by
+  induction pre with
+  | nil => intro init s h; exact Or.inl h
+  | cons f rest ih =>
+    intro init s h
+    rcases ih _ s h with h1 | ⟨g, hg, h1⟩
+    · rcases checkFile_checked_origin cfg init (analyze f) s h1 with h2 | h2
+      · exact Or.inl h2
+      · exact Or.inr ⟨f, by simp, h2⟩
+    · exact Or.inr ⟨g, by simp [hg], h1⟩
 
 end Cppcheck.RunState
